@@ -105,6 +105,8 @@ func Open(path string, opts *Options) (*DB, error) {
 		}
 	}
 
+	verifSeed(db)
+
 	if acquiredExistingLock {
 		if err := db.recover(); err != nil {
 			return nil, errors.Wrap(err, "recovering")
